@@ -28,7 +28,7 @@ META = {
 def run(ctx):
     obs = ctx.obs
     obs.extra['meta'] = META
-    total = ctx.n(320, 12000)
+    total = ctx.n(480, 12000)
     for case, rng in ctx.cases(total):
         conv = CONVENTIONS[case % len(CONVENTIONS)]
         spec = {'case': case, 'convention': conv}
